@@ -31,6 +31,7 @@ type mmsg struct {
 	ID    int    `json:"id"`
 	Share int    `json:"share"`
 	Stamp int    `json:"stamp"`
+	N     int    `json:"n"`
 }
 
 type act struct {
@@ -89,7 +90,7 @@ func peerOf(x string) string {
 	}
 	return "A"
 }
-func key(m mmsg) string { return fmt.Sprintf("%s/%s/%d/%d/%d", m.To, m.Kind, m.ID, m.Share, m.Stamp) }
+func key(m mmsg) string { return fmt.Sprintf("%s/%s/%d/%d/%d/%d", m.To, m.Kind, m.ID, m.Share, m.Stamp, m.N) }
 
 // kindOf classifies a real frame in flight.
 func kindOf(data []byte) string {
@@ -183,6 +184,16 @@ func (p *pair) exec(c *vf.Ctx, a act, created *mmsg) bool {
 		}
 		delete(p.flights, key(a.M))
 		_, _ = p.ms.W.Deliver(fl)
+	case "dup":
+		fl := p.flights[key(a.M)]
+		p.steps = append(p.steps, fmt.Sprintf("duplicate %s(id %d) to %s", a.M.Kind, a.M.ID, a.M.To))
+		if fl == nil {
+			return false
+		}
+		cp := a.M
+		cp.N = 1
+		p.flights[key(cp)] = p.ms.W.Duplicate(fl)
+		return true
 	case "drop":
 		fl := p.flights[key(a.M)]
 		p.steps = append(p.steps, fmt.Sprintf("drop %s(id %d) to %s", a.M.Kind, a.M.ID, a.M.To))
@@ -393,8 +404,24 @@ func run(c *vf.Ctx) {
 				}
 			}
 			if !pr.exec(c, st.A, created) {
+				// The real routers did not follow the specification of the code as it is
+				// (e.g. they answered a message the model drops). Let the network drain
+				// and judge what they ended up with by the property itself.
 				drift++
 				okRun = false
+				for k := 0; k < 200 && pr.ms.W.NInflight() > 0; k++ {
+					fl := pr.ms.W.Take(0)
+					_, _ = pr.ms.W.Deliver(fl)
+				}
+				o := pr.observe()
+				events = append(events, map[string]any{"ev": "step", "what": "divergence from the model; network drained"})
+				if o.ASet && o.BSet && !(o.A2B && o.B2A) {
+					steps := append([]string(nil), pr.steps...)
+					c.Violation("mismatch/divergent/code", fmt.Sprintf("both routers report encryption established but cannot decrypt each other (A->B %v, B->A %v) after: %v (then the network drained); the specification of the code as it is does not allow the last step's outcome", o.A2B, o.B2A, steps),
+						map[string]any{"schedule": steps, "observed": o}, nil)
+				} else {
+					events = append(events, map[string]any{"ev": "quiet", "aset": o.ASet, "bset": o.BSet, "a2b": o.A2B, "b2a": o.B2A, "class": "divergent"})
+				}
 				break
 			}
 			events = append(events, map[string]any{"ev": "step", "what": pr.steps[len(pr.steps)-1]})
